@@ -148,3 +148,16 @@ def metacommand(I, name):
 
 def metacommand_fn(I, name):
     return metacommand(I, name).fields["fn"]
+
+
+def closure_pattern(parser_rec):
+    """the compiled regular expression a Parser.regex(...) object closes over, whatever its local name"""
+    import re as _re
+    fn = parser_rec.fields.get("fn") if isinstance(parser_rec, Rec) else None
+    env = getattr(fn, "env", None)
+    while env is not None:
+        for v in env.vars.values():
+            if isinstance(v, _re.Pattern):
+                return v
+        env = env.parent
+    return None
